@@ -12,7 +12,8 @@
    their conclusions: the results are functions of the data alone. *)
 From Coq Require Import List NArith Arith Lia.
 From NV Require Import Io.Source Io.ReadExact Io.ReadExactProofs Io.BufReader Io.BufReaderProofs
-  Io.FastaScan Io.FastaScanProofs Io.Run Io.RunProofs.
+  Io.FastaScan Io.FastaScanProofs Io.FastaIndex Io.FastaIndexProofs Io.Run Io.RunProofs.
+From NV Require Fasta.Layout Fasta.Indexer Fasta.WholeFile.
 Import ListNotations.
 
 (* every delivery script (any split sizes, any placement of Interrupted) is a simulating reader;
@@ -199,6 +200,40 @@ Theorem c12_fasta_indexer_line_chunk_indep :
 Proof. exact (@consume_sequence_line_spec). Qed.
 Print Assumptions c12_fasta_indexer_line_chunk_indep.
 
+(* ---- the whole FASTA indexer (Indexer::index_record in the loop of fasta::fs::index): for every
+   simulating reader, every BufReader capacity and every data the records and the final error are
+   those of C11's line-driven model on the lines of the data (j = outer loop fuel, the same on both
+   sides; k > |d| bounds the lines of one record; fuel bounds the reads of one primitive call) *)
+Theorem c12_fasta_indexer_whole_file_chunk_indep :
+  forall (S : Type) (rd : reader S) (Rep : S -> list N -> nat -> Prop), simulates rd Rep ->
+  forall cap, 1 <= cap ->
+  forall j k fuel st d m off, rep_buf Rep st d m -> length d < k -> m + length d + 1 < fuel ->
+    exists st', d_index_loop rd cap j k fuel st off = (Indexer.index_loop j (Layout.lines d) off, st').
+Proof. exact (@d_index_loop_spec). Qed.
+Print Assumptions c12_fasta_indexer_whole_file_chunk_indep.
+
+(* on the scripted source: any script, any capacity: exactly C11's index_file of the data *)
+Theorem c12_fasta_index_file_any_delivery :
+  forall data sc cap, 1 <= cap ->
+    exists st', run_index_file cap (mkSource data sc) = (Indexer.index_file data, st').
+Proof. exact run_index_file_spec. Qed.
+Print Assumptions c12_fasta_index_file_any_delivery.
+
+(* composed with C11's whole-file theorem: under every delivery the fai records produced are, in
+   order, records of the naive whole-file parse of the data (all of them when the indexer ends
+   without error), each with the right name, length, base offsets and region queries *)
+Theorem c12_fasta_index_file_delivery_is_naive_parse :
+  forall data sc cap recs e, 1 <= cap ->
+    fst (run_index_file cap (mkSource data sc)) = (recs, e) ->
+    Forall2 (WholeFile.rec_matches data) recs (firstn (length recs) (Layout.naive_file data)) /\
+    (e = None -> length recs = length (Layout.naive_file data)).
+Proof.
+  intros data sc cap recs e Hcap H.
+  destruct (run_index_file_spec data sc cap Hcap) as [st' E]. rewrite E in H. cbn [fst] in H.
+  exact (WholeFile.index_file_whole data recs e H).
+Qed.
+Print Assumptions c12_fasta_index_file_delivery_is_naive_parse.
+
 (* ---- non-vacuity *)
 (* a script with 1-byte deliveries and an Interrupted in the middle: read_exact 4 of "abcdef" *)
 Example c12_example_read_exact :
@@ -228,3 +263,11 @@ Proof. vm_compute. repeat split. Qed.
 Example c12_example_fasta :
   snd (fst (run_read_sequence 1 (mkSource [65; 67; 13; 10; 71; 84; 13; 10; 62; 120]%N []))) = [65; 67; 71; 84]%N.
 Proof. vm_compute. reflexivity. Qed.
+
+(* whole-file indexer: two CRLF records, capacity 1 with Interrupted, capacity 3, one window *)
+Example c12_example_index_file :
+  let f := [62; 97; 13; 10; 65; 67; 13; 10; 71; 13; 10; 62; 98; 10; 84; 84; 10]%N in
+  fst (run_index_file 1 (mkSource f [Interrupted; Deliver 1; Interrupted])) = Indexer.index_file f /\
+  fst (run_index_file 3 (mkSource f [Deliver 2; Deliver 1])) = Indexer.index_file f /\
+  length (fst (Indexer.index_file f)) = 2 /\ snd (Indexer.index_file f) = None.
+Proof. vm_compute. repeat split. Qed.
